@@ -6,41 +6,60 @@
 EXTENDS Naturals, FiniteSets, TLC
 
 CONSTANTS Nodes, Ids,       \* cluster ids
+          DynamicSend,      \* TRUE: the broadcast loop reads the sender's current cluster id for every frame and target choice (the code);
+                            \* FALSE: the id read once when the loop started
           Dynamic           \* TRUE: the uni-stream filter reads the receiver's current cluster id (fixed); FALSE: the id captured when the connection was accepted (code as found)
 
+Anybody == 99         \* sender of a hand-built frame (its true cluster is unknown)
 VARIABLES cluster,   \* [Nodes -> Ids]: current cluster id of each node
+          loopId,    \* [Nodes -> Ids]: the cluster id each node had when its broadcast loop started
           conns,     \* set of [from, to, captured]: accepted connections with the id captured at accept time
           applied,   \* set of [to, declared, at]: payloads handed to the ingest pipeline, with the receiver's cluster id at that moment
           sync       \* set of [client, server, declared, at, answer]
-vars == <<cluster, conns, applied, sync>>
+vars == <<cluster, loopId, conns, applied, sync>>
 
-Init == cluster \in [Nodes -> Ids] /\ conns = {} /\ applied = {} /\ sync = {}
+Init == cluster \in [Nodes -> Ids] /\ loopId = cluster /\ conns = {} /\ applied = {} /\ sync = {}
 
 Connect(s, r) == /\ s # r /\ ~\E c \in conns : c.from = s /\ c.to = r
                  /\ conns' = conns \cup {[from |-> s, to |-> r, captured |-> cluster[r]]}
-                 /\ UNCHANGED <<cluster, applied, sync>>
-ChangeCluster(n, c) == /\ cluster[n] # c /\ cluster' = [cluster EXCEPT ![n] = c] /\ UNCHANGED <<conns, applied, sync>>
+                 /\ UNCHANGED <<cluster, loopId, applied, sync>>
+ChangeCluster(n, c) == /\ cluster[n] # c /\ cluster' = [cluster EXCEPT ![n] = c] /\ UNCHANGED <<loopId, conns, applied, sync>>
 (* a broadcast payload arrives on an accepted connection, declaring cluster d (an old frame declares 0) *)
 SendUni(conn, d) ==
     /\ conn \in conns
     /\ LET filter == IF Dynamic THEN cluster[conn.to] ELSE conn.captured IN
-       IF d = filter THEN applied' = applied \cup {[to |-> conn.to, declared |-> d, at |-> cluster[conn.to]]} ELSE UNCHANGED applied
-    /\ UNCHANGED <<cluster, conns, sync>>
+       IF d = filter THEN applied' = applied \cup {[to |-> conn.to, declared |-> d, at |-> cluster[conn.to], sender |-> Anybody]} ELSE UNCHANGED applied
+    /\ UNCHANGED <<cluster, loopId, conns, sync>>
+(* the broadcast loop of node s sends one of s's own changes: it stamps the frame with "its" cluster id and picks  *)
+(* its targets among the members of that cluster (membership is assumed accurate)                                  *)
+Broadcast(conn) ==
+    /\ conn \in conns
+    /\ LET s == conn.from
+           r == conn.to
+           d == IF DynamicSend THEN cluster[s] ELSE loopId[s]
+           filter == IF Dynamic THEN cluster[r] ELSE conn.captured
+       IN IF cluster[r] = d /\ d = filter
+          THEN applied' = applied \cup {[to |-> r, declared |-> d, at |-> cluster[r], sender |-> cluster[s]]}
+          ELSE UNCHANGED applied
+    /\ UNCHANGED <<cluster, loopId, conns, sync>>
 (* a sync session is opened declaring cluster d *)
 SyncStart(c, s, d) ==
     /\ c # s
     /\ sync' = sync \cup {[client |-> c, server |-> s, declared |-> d, at |-> cluster[s],
                            answer |-> IF d = cluster[s] THEN "state" ELSE "rejected:different_cluster"]}
-    /\ UNCHANGED <<cluster, conns, applied>>
+    /\ UNCHANGED <<cluster, loopId, conns, applied>>
 
 Next == \/ \E s, r \in Nodes : Connect(s, r)
         \/ \E n \in Nodes, c \in Ids : ChangeCluster(n, c)
         \/ \E conn \in conns, d \in Ids : SendUni(conn, d)
+        \/ \E conn \in conns : Broadcast(conn)
         \/ \E c, s \in Nodes, d \in Ids : SyncStart(c, s, d)
 Spec == Init /\ [][Next]_vars
 
 (* C16: a node never applies a change sent by a node declaring a different cluster id *)
 C16_NoCrossApply == \A a \in applied : a.declared = a.at
+(* C16: what a node applies of another node's own broadcasts was written inside the receiver's cluster *)
+C16_NoCrossData == \A a \in applied : a.sender # Anybody => a.sender = a.at
 (* C16: such a node is refused with an explicit rejection instead of data *)
 C16_SyncRejected == \A x \in sync : (x.declared # x.at) = (x.answer = "rejected:different_cluster")
 =============================================================================
